@@ -67,6 +67,26 @@ def generate(R, tier):
             c["stream"] = "edited-after-dissection"
             c["edit"] = {"ttl": R.choice([1, 64, 128, 255, R.randrange(256)]), "win": R.choice([0, 1, 5840, 65535, R.randrange(65536)]),
                          "df": R.random() < 0.5, "id": R.choice([0, 1, 4660])}
+        if "edit" not in c and st == "well-formed" and ty in (2, 0x12) and not spec.get("mf") and not spec.get("frag") and R.random() < 0.2:
+            # TCPResult.packet_signature: what fingerprint_tcp hands back AFTER its search through a database (specific / generic / near-miss
+            # records written for this very packet) is still what the headers say
+            from harness.props import c02
+            p["win"] = spec["win"]
+            p["syn_mss"] = c["syn_mss"] = c["syn_mss"] if ty == 0x12 else 0
+            try:
+                c["lines"] = c02.make_db(R, p, 35, ty)[0]
+                qs = [b for b in range(17) if p["quirks"] >> b & 1]
+                if qs and R.random() < 0.6:
+                    # first in file order: a specific record that describes the packet except for ONE quirk the packet has (no p0f.fp record
+                    # has `flow`, say): whatever the search does with it, the signature handed back keeps every quirk of the headers
+                    sg = G.matching_sig(R, p, 35)
+                    sg["quirks"] &= ~(1 << R.choice(qs))
+                    sg["dist"] = 0
+                    G.legal_quirks(sg)
+                    c["lines"][3:3] = ["[tcp:%s]" % ("request" if ty == 2 else "response"), "label = s:unix:Near:miss", "sig = " + G.sig_text(sg), ""]
+                c["stream"] = "result-signature"
+            except Exception:
+                c.pop("lines", None)
         yield c
 
 
@@ -112,7 +132,17 @@ def impl_init():
             return {"err": "PacketError"}
         o = k.tcp.options
         ps = TCPPacketSignature.from_packet(k, c["syn_mss"])
-        return {"ok": {"ip": {"version": k.ip.version, "ttl": k.ip.ttl, "options_length": k.ip.options_length, "header_length": k.ip.header_length,
+        extra = {}
+        if "lines" in c:
+            from pyp0f.fingerprint import fingerprint_tcp
+            from pyp0f.options import Options
+            db = U.load_db("\n".join(c["lines"]) + "\n")
+            try:
+                r = fingerprint_tcp(pkt if len(c["lines"]) % 2 else k, syn_mss=c["syn_mss"], options=Options(database=db))
+                extra = {"result_psig": U.psig_dict(r.packet_signature), "result_tcp_quirks": r.packet.tcp.quirks.value, "result_ip_quirks": r.packet.ip.quirks.value}
+            except PacketError:
+                extra = {"result_psig": "PacketError"}
+        return {**extra, "ok": {"ip": {"version": k.ip.version, "ttl": k.ip.ttl, "options_length": k.ip.options_length, "header_length": k.ip.header_length,
                               "is_fragment": bool(k.ip.is_fragment), "quirks": k.ip.quirks.value},
                        "tcp": {"type": int(k.tcp.type), "src_port": k.tcp.src_port, "dst_port": k.tcp.dst_port, "window": k.tcp.window, "seq": k.tcp.seq,
                                "header_length": k.tcp.header_length, "quirks": k.tcp.quirks.value, "payload": bytes(k.tcp.payload).hex(),
@@ -138,6 +168,14 @@ def nontrivial(c, ir, mr):
 def judge(c, ir, mr):
     if mr == "unframed":
         return {"kind": "harness built a packet the model calls unframed", "why": str(c["spec"]), "no_failing_input": True}
+    if isinstance(ir, dict) and "result_psig" in ir:
+        ir = dict(ir)
+        rp, rt, ri = ir.pop("result_psig"), ir.pop("result_tcp_quirks", None), ir.pop("result_ip_quirks", None)
+        if isinstance(mr, dict) and "ok" in mr and (rp != mr["ok"]["psig"] or rt != mr["ok"]["tcp"]["quirks"] or ri != mr["ok"]["ip"]["quirks"]):
+            return {"kind": "extracted field or quirk differs from what the headers say",
+                    "why": "TCPResult.packet_signature / .packet after the database search: %s (tcp quirks %s, ip quirks %s); the headers say %s (tcp %s, ip %s)" % (
+                        rp, rt, ri, mr["ok"]["psig"], mr["ok"]["tcp"]["quirks"], mr["ok"]["ip"]["quirks"]),
+                    "judged_by": "C03_* (the model's dissector is proved to invert the header encoders)"}
     if ir == mr:
         return None
     diff = ""
